@@ -365,9 +365,55 @@ func (wc *wCase) classify(r wResult, what string) string {
 var c06Reused *graph.WeightedAuthorizationModelGraphBuilder
 var c06Prev string
 
+// degenerateOperands: operators whose operands collapse into one edge or none - the same direct assignment
+// on both sides of an exclusion or intersection (merged by UpsertEdge), the same computed relation twice, an
+// operand without restrictions - alone and below a union, a tuple-to-userset and a second relation
+func degenerateOperands(rng *rand.Rand) *Model {
+	user := []Ref{{Type: "user"}}
+	if rng.Intn(3) == 0 {
+		user = []Ref{{Type: "user"}, {Type: "user", Cond: "c1"}}
+	}
+	if rng.Intn(4) == 0 {
+		user = []Ref{{Type: "user", Wildcard: true}}
+	}
+	var rw *U
+	restr := user
+	switch rng.Intn(7) {
+	case 0:
+		rw = Diff(This(), This())
+	case 1:
+		rw = Inter(This(), This())
+	case 2:
+		rw = Diff(CU("b"), CU("b"))
+		restr = nil
+	case 3:
+		rw = Inter(CU("b"), CU("b"), CU("b"))
+		restr = nil
+	case 4:
+		rw = Diff(This(), CU("b"))
+		restr = []Ref{}
+	case 5:
+		rw = Union(Diff(This(), This()), CU("b"))
+	default:
+		rw = Diff(Union(This(), This()), Inter(This(), This()))
+	}
+	doc := Type{Name: "doc", Rels: []Rel{{Name: "a", Rewrite: rw, Restr: restr}, {Name: "b", Rewrite: This(), Restr: user}}}
+	if rng.Intn(2) == 0 {
+		doc.Rels = append(doc.Rels, Rel{Name: "c", Rewrite: Union(CU("a"), CU("b"))})
+	}
+	if rng.Intn(3) == 0 {
+		doc.Rels = append(doc.Rels, Rel{Name: "p", Rewrite: This(), Restr: []Ref{{Type: "doc"}}}, Rel{Name: "d", Rewrite: TTU("p", "a")})
+	}
+	return &Model{Schema: "1.1", Types: []Type{{Name: "user", MetaNil: true}, doc}}
+}
+
 func genWModels(rng *rand.Rand, n int) []*Model {
 	ms := make([]*Model, n)
 	for i := range ms {
+		if i%40 == 11 {
+			ms[i] = degenerateOperands(rng)
+			continue
+		}
 		if i%8 == 7 {
 			ms[i] = GenCycleWeb(rng)
 			continue
